@@ -209,7 +209,8 @@ def eval_sphinx_tree(ctx, case):
                 continue
             if recs is None:
                 recs = [r["msg"] for r in b.stream_records()]
-            if any("not found" in m and (rid.lower() in m.lower() or urllib.parse.unquote(rid).lower() in m.lower()) for m in recs):
+            uq = urllib.parse.unquote(rid)
+            if any("not found" in m and (rid.lower() in m.lower() or uq.lower() in m.lower() or repr(uq)[1:-1].lower() in m.lower()) for m in recs):  # (the message shows the target's repr)
                 ctx.count("sphinx_dangling_links_with_warning")
                 continue
             if "{eval-rst}" in case["text"]:
